@@ -279,7 +279,8 @@ func c12Final(s *mc.Sched) []mc.Viol {
 		}
 	}
 	mode := sc.Upgrades
-	if mode == "remote-master" {
+	if c12s.mdir != "" {
+		// (the world of a remote-master scenario runs under the name "remote-ok-custom")
 		check("replica", w.dirA, c12s.initial, "", sc.Default, "")
 		check("master", c12s.mdir, c12s.minit, "local", sc.Default, "")
 	} else {
